@@ -156,7 +156,8 @@ Definition pending (idx : nat) (c : cfg) (s : sm) : sm :=
   else
     let s := emit s in   (* the output buffer goes first (repaired defect F1) *)
     if negb (is_empty (mode_info s)) then
-      write_file_header idx (name_of_diff_line (diff_line s)) s
+      (* shown now: mark as handled (repaired defect F19) *)
+      set_handled (write_file_header idx (name_of_diff_line (diff_line s)) s) (cur s)
     else if negb (color_only c) && negb (opt_text_pair_eqb (handled s) (cur s)) then
       set_handled (write_file_header idx (describe s) s) (cur s)
     else s.
